@@ -152,8 +152,8 @@ Fixpoint nat_expr (fuel : nat) (genv en : nenv) (e : expr) (out : list N) {struc
           | Some d =>
               match nat_bind_params (fparams d) vs with
               | None => NStuck
-              | Some en' =>
-                  nbind (nat_stmt fuel' genv en' (fbody d) out1) (fun r out2 =>
+              | Some en' =>      (* parameters enter scope in order: the last one is the newest binding *)
+                  nbind (nat_stmt fuel' genv (rev en') (fbody d) out1) (fun r out2 =>
                     match fst r with
                     | NCReturn v => NOk v out2
                     | NCNormal => NOk VVoid out2
